@@ -240,6 +240,15 @@ func (l *freshLab) compareTrees(d *pipeline.Design, part, refDir, dir string, re
 			a, _ := os.ReadFile(filepath.Join(refDir, df.Path))
 			b, _ := os.ReadFile(filepath.Join(dir, df.Path))
 			w.Line, w.LineA, w.LineB = firstDiffLine(a, b)
+			if part != "same-process" && strings.HasSuffix(df.Path, ".yaml") && sameLineMultiset(a, b) {
+				// the two renderings hold the same lines in another order (and their JSON twins are equal or are
+				// reported under their own key): one root cause of its own, the order of YAML mapping keys
+				key += ":same-lines-other-order"
+				if seen[key] {
+					continue
+				}
+				seen[key] = true
+			}
 			what = fmt.Sprintf("%s: two generations of the same design (%s vs %s) wrote different bytes to %s; first difference at line %d: %q vs %q",
 				part, descA, descB, df.Path, w.Line, clip(w.LineA, 120), clip(w.LineB, 120))
 		case "only-in-a":
@@ -251,6 +260,27 @@ func (l *freshLab) compareTrees(d *pipeline.Design, part, refDir, dir string, re
 		l.run.Violation(key, what, w)
 	}
 	return len(diffs)
+}
+
+// sameLineMultiset reports whether two texts consist of the same lines, order aside.
+func sameLineMultiset(a, b []byte) bool {
+	la, lb := strings.Split(string(a), "\n"), strings.Split(string(b), "\n")
+	if len(la) != len(lb) {
+		return false
+	}
+	n := map[string]int{}
+	for _, l := range la {
+		n[l]++
+	}
+	for _, l := range lb {
+		n[l]--
+	}
+	for _, c := range n {
+		if c != 0 {
+			return false
+		}
+	}
+	return true
 }
 
 // roleClass groups the four renderings of the OpenAPI documents (one document, one cause).
